@@ -331,7 +331,71 @@ func genIns(r *vu.Rng, room, plen int) bpf.Instruction {
 	return bpf.TXA{}
 }
 
+// genGuarded: stores to scratch slots guarded by packet bytes, then loads of those (and other) slots:
+// slots are read on paths that did not write them in the same run.
+func genGuarded(r *vu.Rng) ([]bpf.Instruction, [][]byte) {
+	dirty = false
+	var p []bpf.Instruction
+	nslots := r.Range(1, 3)
+	slots := make([]int, nslots)
+	for j := range slots {
+		slots[j] = genSlot(r)
+	}
+	for j, sl := range slots {
+		val := genVal(r)
+		if val == 0 || r.Bool() {
+			val = 1 + uint32(r.Intn(0xffff))
+		}
+		src := bpf.Register(r.Intn(2))
+		p = append(p, bpf.LoadAbsolute{Off: uint32(j), Size: 1})
+		// skip the store unless the test on the packet byte succeeds / fails
+		if r.Bool() {
+			p = append(p, bpf.JumpIf{Cond: bpf.JumpTest(r.Intn(8)), Val: uint32(r.Intn(3)), SkipTrue: 2})
+		} else {
+			p = append(p, bpf.JumpIf{Cond: bpf.JumpTest(r.Intn(8)), Val: uint32(r.Intn(3)), SkipFalse: 2})
+		}
+		p = append(p, bpf.LoadConstant{Dst: src, Val: val}, bpf.StoreScratch{Src: src, N: sl})
+	}
+	p = append(p, bpf.LoadConstant{Dst: bpf.RegA, Val: 0})
+	for _, sl := range slots {
+		if r.Bool() {
+			p = append(p, bpf.LoadScratch{Dst: bpf.RegX, N: sl}, bpf.ALUOpX{Op: []bpf.ALUOp{bpf.ALUOpAdd, bpf.ALUOpXor, bpf.ALUOpOr}[r.Intn(3)]})
+		} else {
+			p = append(p, bpf.LoadScratch{Dst: bpf.RegA, N: sl})
+		}
+	}
+	if r.Chance(1, 4) {
+		p = append(p, bpf.LoadScratch{Dst: bpf.RegA, N: r.Intn(16)})
+	}
+	p = append(p, bpf.RetA{})
+	npk := r.Range(2, 5)
+	pkts := make([][]byte, npk)
+	for k := range pkts {
+		b := make([]byte, nslots+r.Intn(2))
+		for j := range b {
+			b[j] = byte(r.Intn(3))
+		}
+		if k >= 2 && r.Bool() {
+			b = append([]byte{}, pkts[r.Intn(k)]...) // a packet seen before
+		}
+		pkts[k] = b
+	}
+	return p, pkts
+}
+
+func runsLine(p []bpf.Instruction, pkts [][]byte) string {
+	parts := []string{"runs", fmtProg(p)}
+	for _, b := range pkts {
+		parts = append(parts, vu.Hex(b))
+	}
+	return strings.Join(parts, " ")
+}
+
 func gen(r *vu.Rng, i int) []string {
+	if r.Chance(1, 5) {
+		p, pkts := genGuarded(r)
+		return []string{runsLine(p, pkts)}
+	}
 	// packet
 	plen := r.Intn(24)
 	switch r.Intn(10) {
@@ -366,6 +430,18 @@ func gen(r *vu.Rng, i int) []string {
 	}
 	ps := fmtProg(p)
 	lines := []string{"run " + ps + " " + vu.Hex(pkt), "ref " + ps + " " + vu.Hex(pkt)}
+	if r.Chance(1, 3) {
+		// the same VM value run on several packets in a row
+		pk := [][]byte{pkt}
+		for k := r.Range(1, 3); k > 0; k-- {
+			if r.Chance(1, 3) {
+				pk = append(pk, pkt)
+			} else {
+				pk = append(pk, r.Bytes(r.Intn(plen+3)))
+			}
+		}
+		lines = append(lines, runsLine(p, pk))
+	}
 	if r.Chance(1, 4) {
 		// same program, another packet (shorter / longer)
 		pkt2 := r.Bytes(r.Intn(30))
@@ -474,6 +550,63 @@ func exec(ops []string, o *vu.Out) {
 				o.Stat("diff:" + sig)
 				o.Fail(sig, fmt.Sprintf("VM.Run = %d, reference interpreter on the assembled program = %d (valid=%v)", got, want, valid))
 			}
+		case t[0] == "runs" && len(t) >= 3:
+			var pkts [][]byte
+			okp := true
+			for _, h := range t[2:] {
+				b, ok := vu.ParseHex(h)
+				okp = okp && ok
+				pkts = append(pkts, b)
+			}
+			if !okp {
+				o.Op(op, "bad-op")
+				continue
+			}
+			vm, err := bpf.NewVM(p)
+			if err != nil {
+				o.Op(op, "rej")
+				o.Stat("runs:rej")
+				continue
+			}
+			o.Stat("runs")
+			raw, aerr := bpf.Assemble(p)
+			res := []string{"ok"}
+			for k, pkt := range pkts {
+				var got int
+				var rerr error
+				r1, panicked, msg := vu.CatchMsg(func() string {
+					got, rerr = vm.Run(pkt) // the SAME VM for every packet of the case
+					if rerr != nil {
+						return "err"
+					}
+					return fmt.Sprint(got)
+				})
+				res = append(res, r1)
+				if !implemented(p) {
+					continue
+				}
+				if panicked || rerr != nil || aerr != nil {
+					o.Fail("", fmt.Sprintf("run %d of an accepted program failed: panic=%v %s err=%v asm=%v", k, panicked, msg, rerr, aerr))
+					continue
+				}
+				// independence of earlier runs, stated twice: against the reference interpreter (fresh
+				// state by construction) and against a fresh VM of the same program
+				want, valid := refRun(raw, pkt)
+				if !valid || int(want) != got {
+					sig := ""
+					if unknownALU(p) {
+						sig = "aluop-unknown"
+					}
+					o.Stat("runs-diff:" + sig)
+					o.Fail(sig, fmt.Sprintf("run %d on one VM: Run(%x) = %d, reference interpreter = %d (valid=%v)", k, pkt, got, want, valid))
+				}
+				if fresh, err := bpf.NewVM(p); err == nil {
+					if g2, e2 := fresh.Run(pkt); e2 != nil || g2 != got {
+						o.Fail("", fmt.Sprintf("run %d on a used VM: Run(%x) = %d, on a fresh VM = %d", k, pkt, got, g2))
+					}
+				}
+			}
+			o.Op(op, strings.Join(res, " "))
 		case t[0] == "ref" && len(t) == 3:
 			pkt, ok := vu.ParseHex(t[2])
 			if !ok {
